@@ -7,10 +7,12 @@ package supervisor
 
 import (
 	"fmt"
+	"runtime"
 	"sort"
 	"strings"
 	"sync"
 	"testing"
+	"time"
 
 	"pgregory.net/rapid"
 
@@ -32,6 +34,47 @@ type vfCall struct {
 	Kind     string
 	Payload  string
 	Panicked bool
+	// the instance's counters right after this call
+	NInit, NInh, NClose int
+}
+
+// vfSub is one snapshot of a step (a step applies a burst of one or more snapshots before draining).
+type vfSub struct {
+	snap   vfSnap
+	olds   map[string]*vfObj // the object each name had before this snapshot (nil: absent)
+	cfg    map[string]string
+	expect map[string][]string // business controllers: the callbacks the statement calls for
+}
+
+// vfBurstRun applies the snapshots one after the other (own goroutine: applyConfig blocks on a full queue).
+func vfBurstRun(or *ObjectRegistry, cfgs []map[string]string, done chan<- string) {
+	res := ""
+	defer func() {
+		if r := recover(); r != nil {
+			res = fmt.Sprint(r)
+		}
+		done <- res
+	}()
+	for _, c := range cfgs {
+		or.applyConfig(c)
+	}
+}
+
+// vfBurstParkedInSend reports whether the vfBurstRun goroutine is parked in a channel send.
+func vfBurstParkedInSend() bool {
+	buf := make([]byte, 1<<18)
+	n := runtime.Stack(buf, true)
+	for _, g := range strings.Split(string(buf[:n]), "\n\n") {
+		if !strings.Contains(g, "supervisor.vfBurstRun") {
+			continue
+		}
+		head := g
+		if i := strings.Index(g, "\n"); i >= 0 {
+			head = g[:i]
+		}
+		return strings.Contains(head, "[chan send")
+	}
+	return false
 }
 
 func (c vfCall) String() string {
@@ -130,6 +173,7 @@ func (c *vfCore) record(op string, kind string, spec *Spec, prev Object) {
 	if l.plan[fmt.Sprintf("%d/%s", l.step, c.name)]&bit != 0 {
 		call.Panicked = true
 	}
+	call.NInit, call.NInh, call.NClose = c.nInit, c.nInh, c.nClose
 	l.calls = append(l.calls, call)
 	if call.Panicked {
 		panic(fmt.Sprintf("vf injected panic in %s of %s", op, c.name))
@@ -403,63 +447,19 @@ func TestVerifC20Supervisor(t *testing.T) {
 
 		for step := 0; step < nsteps; step++ {
 			led.step = step
-			// ---- generate the next snapshot (1-3 coalesced rounds of per-name mutations)
-			next := cur.clone()
-			rounds := rapid.SampledFrom([]int{1, 1, 1, 2, 2, 3}).Draw(rt, "rounds")
-			touched := map[string]int{}
-			for r := 0; r < rounds; r++ {
-				for _, n := range vfNames {
-					o, present := next[n]
-					if !present {
-						if rapid.IntRange(0, 2).Draw(rt, "appear") == 0 {
-							next[n] = vfObj{Kind: rapid.SampledFrom(vfKindsWeighted).Draw(rt, "kind"), Payload: rapid.SampledFrom(vfPayloads).Draw(rt, "payload")}
-							touched[n]++
-						}
-						continue
-					}
-					act := rapid.SampledFrom([]string{"keep", "keep", "keep", "keep", "keep", "drop", "drop", "payload", "payload", "payload", "kind-same", "kind-cross"}).Draw(rt, "act")
-					switch act {
-					case "drop":
-						delete(next, n)
-						touched[n]++
-					case "payload":
-						o.Payload = rapid.SampledFrom(vfPayloads).Draw(rt, "payload")
-						next[n] = o
-						touched[n]++
-					case "kind-same", "kind-cross":
-						if k, ok := vfOtherKind(rt, o.Kind, act == "kind-same"); ok {
-							o.Kind = k
-							next[n] = o
-							touched[n]++
-						}
-					}
-				}
+			// a burst: k snapshots are applied before any watcher channel is drained (a consumer that is
+			// stalled, e.g. inside a slow Init, while the registry keeps receiving snapshots)
+			k := 1
+			if !(preload && step == 0) && step != lateAt {
+				k = rapid.SampledFrom([]int{1, 1, 1, 1, 1, 1, 1, 1, 1, 1, 2, 3, 5, 8, 10, 11, 12, 13, 14}).Draw(rt, "burst")
 			}
-			// net kind changes (drawn directly, or a coalesced disappear + reappear as another kind):
-			// behind a known finding they are steered away from, except in the few probing cases
-			for _, n := range vfNames {
-				o, ok1 := cur[n]
-				nw, ok2 := next[n]
-				if !ok1 || !ok2 || o.Kind == nw.Kind {
-					continue
-				}
-				key := vfKeyKindSame
-				if vfKindCat[o.Kind] != vfKindCat[nw.Kind] {
-					key = vfKeyKindCross
-				}
-				if vf.HasKnown(key) && !probeKnown {
-					vf.Exclude()
-					nw.Kind = o.Kind
-					next[n] = nw
-				}
+			if k > 1 {
+				vf.Class("burst-of-snapshots-before-draining")
 			}
-			for _, n := range vfNames {
-				if touched[n] > 1 {
-					vf.Class("coalesced-changes-on-one-name")
-					break
-				}
+			if k > 10 {
+				vf.Class("burst-longer-than-the-watcher-queue")
 			}
-			// fault plan for this step
+			// fault plan for this step (holds for the whole burst)
 			var planDesc []string
 			for _, n := range vfNames {
 				m := rapid.SampledFrom([]int{0, 0, 0, 0, 0, 0, 0, 0, 0, 0, 0, 0, 0, 0, 1, 2, 4, 7}).Draw(rt, "panicMask")
@@ -468,70 +468,143 @@ func TestVerifC20Supervisor(t *testing.T) {
 					planDesc = append(planDesc, fmt.Sprintf("%s:%d", n, m))
 				}
 			}
-			// render
-			cfg := map[string]string{}
-			var styles []string
-			for _, n := range vfNames {
-				if o, ok := next[n]; ok {
-					st := rapid.IntRange(0, 2).Draw(rt, "style")
-					cfg[n] = vfRender(n, o, st)
-					styles = append(styles, fmt.Sprint(st))
-				}
-			}
-			hist = append(hist, fmt.Sprintf("step %d: snapshot %s styles=%s panic-plan(name:mask 1=init 2=inherit 4=close)=%v", step, next, strings.Join(styles, ""), planDesc))
 
-			// ---- expectations from the model
-			expect := map[string]*vfExpect{}
 			kindChange := map[string]string{} // name -> key
 			changed := map[string]bool{}
-			for _, n := range vfNames {
-				old := model[n]
-				nw, present := next[n]
-				e := &vfExpect{}
-				expect[n] = e
-				switch {
-				case old == nil && present:
-					changed[n] = true
-					vf.Class("appear")
-					if everAbsentAfterPresent[n] {
-						vf.Class("reappear")
-						ntReappear = true
+			var subs []*vfSub
+			shadow := cur
+			for b := 0; b < k; b++ {
+				// ---- generate the next snapshot (1-3 coalesced rounds of per-name mutations)
+				next := shadow.clone()
+				rounds := rapid.SampledFrom([]int{1, 1, 1, 2, 2, 3}).Draw(rt, "rounds")
+				touched := map[string]int{}
+				for r := 0; r < rounds; r++ {
+					for _, n := range vfNames {
+						o, present := next[n]
+						if !present {
+							if rapid.IntRange(0, 2).Draw(rt, "appear") == 0 {
+								next[n] = vfObj{Kind: rapid.SampledFrom(vfKindsWeighted).Draw(rt, "kind"), Payload: rapid.SampledFrom(vfPayloads).Draw(rt, "payload")}
+								touched[n]++
+							}
+							continue
+						}
+						act := rapid.SampledFrom([]string{"keep", "keep", "keep", "keep", "keep", "drop", "drop", "payload", "payload", "payload", "kind-same", "kind-cross"}).Draw(rt, "act")
+						switch act {
+						case "drop":
+							delete(next, n)
+							touched[n]++
+						case "payload":
+							o.Payload = rapid.SampledFrom(vfPayloads).Draw(rt, "payload")
+							next[n] = o
+							touched[n]++
+						case "kind-same", "kind-cross":
+							if k, ok := vfOtherKind(rt, o.Kind, act == "kind-same"); ok {
+								o.Kind = k
+								next[n] = o
+								touched[n]++
+							}
+						}
 					}
-					if vfKindCat[nw.Kind] == CategoryBusinessController {
-						e.ops = append(e.ops, "init:"+nw.Kind+":"+nw.Payload)
-					}
-				case old != nil && !present:
-					changed[n] = true
-					vf.Class("disappear")
-					if vfKindCat[old.obj.Kind] == CategoryBusinessController {
-						e.ops = append(e.ops, "close:"+old.obj.Kind)
-					}
-				case old != nil && present && old.obj.Kind != nw.Kind:
-					changed[n] = true
-					ntKind = true
-					if vfKindCat[old.obj.Kind] == vfKindCat[nw.Kind] {
-						vf.Class("kind-change-same-category")
-						kindChange[n] = vfKeyKindSame
-					} else {
-						vf.Class("kind-change-cross-category")
-						kindChange[n] = vfKeyKindCross
-					}
-					if vfKindCat[old.obj.Kind] == CategoryBusinessController {
-						e.ops = append(e.ops, "close:"+old.obj.Kind)
-					}
-					if vfKindCat[nw.Kind] == CategoryBusinessController {
-						e.ops = append(e.ops, "init:"+nw.Kind+":"+nw.Payload)
-					}
-				case old != nil && present && old.obj.Payload != nw.Payload:
-					changed[n] = true
-					vf.Class("spec-change")
-					if vfKindCat[nw.Kind] == CategoryBusinessController {
-						e.ops = append(e.ops, "inherit:"+nw.Kind+":"+nw.Payload)
-					}
-				case old != nil && present:
-					vf.Class("unchanged")
 				}
+				// net kind changes (drawn directly, or a coalesced disappear + reappear as another kind):
+				// behind a known finding they are steered away from, except in the few probing cases
+				for _, n := range vfNames {
+					o, ok1 := shadow[n]
+					nw, ok2 := next[n]
+					if !ok1 || !ok2 || o.Kind == nw.Kind {
+						continue
+					}
+					key := vfKeyKindSame
+					if vfKindCat[o.Kind] != vfKindCat[nw.Kind] {
+						key = vfKeyKindCross
+					}
+					if vf.HasKnown(key) && !probeKnown {
+						vf.Exclude()
+						nw.Kind = o.Kind
+						next[n] = nw
+					}
+				}
+				for _, n := range vfNames {
+					if touched[n] > 1 {
+						vf.Class("coalesced-changes-on-one-name")
+						break
+					}
+				}
+				// render
+				sub := &vfSub{snap: next, olds: map[string]*vfObj{}, cfg: map[string]string{}, expect: map[string][]string{}}
+				var styles []string
+				for _, n := range vfNames {
+					if o, ok := next[n]; ok {
+						st := rapid.IntRange(0, 2).Draw(rt, "style")
+						sub.cfg[n] = vfRender(n, o, st)
+						styles = append(styles, fmt.Sprint(st))
+					}
+				}
+				hist = append(hist, fmt.Sprintf("step %d (snapshot %d of a burst of %d applied before draining): snapshot %s styles=%s panic-plan(name:mask 1=init 2=inherit 4=close)=%v", step, b+1, k, next, strings.Join(styles, ""), planDesc))
+
+				// ---- expectations from the statement
+				for _, n := range vfNames {
+					var old *vfObj
+					if o, ok := shadow[n]; ok {
+						o := o
+						old = &o
+					}
+					sub.olds[n] = old
+					nw, present := next[n]
+					var ops []string
+					switch {
+					case old == nil && present:
+						changed[n] = true
+						vf.Class("appear")
+						if everAbsentAfterPresent[n] {
+							vf.Class("reappear")
+							ntReappear = true
+						}
+						if vfKindCat[nw.Kind] == CategoryBusinessController {
+							ops = append(ops, "init:"+nw.Kind+":"+nw.Payload)
+						}
+					case old != nil && !present:
+						changed[n] = true
+						vf.Class("disappear")
+						if vfKindCat[old.Kind] == CategoryBusinessController {
+							ops = append(ops, "close:"+old.Kind)
+						}
+					case old != nil && present && old.Kind != nw.Kind:
+						changed[n] = true
+						ntKind = true
+						if vfKindCat[old.Kind] == vfKindCat[nw.Kind] {
+							vf.Class("kind-change-same-category")
+							kindChange[n] = vfKeyKindSame
+						} else {
+							vf.Class("kind-change-cross-category")
+							kindChange[n] = vfKeyKindCross
+						}
+						if vfKindCat[old.Kind] == CategoryBusinessController {
+							ops = append(ops, "close:"+old.Kind)
+						}
+						if vfKindCat[nw.Kind] == CategoryBusinessController {
+							ops = append(ops, "init:"+nw.Kind+":"+nw.Payload)
+						}
+					case old != nil && present && old.Payload != nw.Payload:
+						changed[n] = true
+						vf.Class("spec-change")
+						if vfKindCat[nw.Kind] == CategoryBusinessController {
+							ops = append(ops, "inherit:"+nw.Kind+":"+nw.Payload)
+						}
+					case old != nil && present:
+						vf.Class("unchanged")
+					}
+					sub.expect[n] = ops
+					if present {
+						everPresent[n] = true
+					} else if everPresent[n] {
+						everAbsentAfterPresent[n] = true
+					}
+				}
+				subs = append(subs, sub)
+				shadow = next
 			}
+			next := shadow
 
 			var disc []vfDiscrepancy
 			add := func(name, kind, format string, args ...interface{}) {
@@ -540,8 +613,47 @@ func TestVerifC20Supervisor(t *testing.T) {
 
 			// ---- drive the real code
 			callsBefore := len(led.calls)
-			if p, text, site := vfRecover(func() { or.applyConfig(cfg) }); p {
-				add("", "panic-escaped applyConfig", "applyConfig panicked at %s: %s", site, text)
+			queued := map[*vfWatch][]*ObjectEntityWatcherEvent{}
+			if k == 1 {
+				if p, text, site := vfRecover(func() { or.applyConfig(subs[0].cfg) }); p {
+					add("", "panic-escaped applyConfig", "applyConfig panicked at %s: %s", site, text)
+				}
+			} else {
+				// The registry blocks in applyConfig when a watcher's queue is full. The burst runs on its
+				// own goroutine; the test takes one event out of a full queue only when that goroutine is
+				// parked in a channel send (read from the goroutine dump, not guessed from the clock), so
+				// every queue really runs full and the events keep their channel order.
+				var cfgs []map[string]string
+				for _, sub := range subs {
+					cfgs = append(cfgs, sub.cfg)
+				}
+				done := make(chan string, 1)
+				go vfBurstRun(or, cfgs, done)
+				start := time.Now()
+				for finished := false; !finished; {
+					select {
+					case r := <-done:
+						finished = true
+						if r != "" {
+							add("", "panic-escaped applyConfig", "applyConfig panicked: %s", r)
+						}
+						continue
+					default:
+					}
+					if vfBurstParkedInSend() {
+						for _, vw := range watches {
+							if len(vw.w.eventChan) == cap(vw.w.eventChan) {
+								vf.Class("registry-blocked-on-a-full-watcher-queue")
+								queued[vw] = append(queued[vw], <-vw.w.eventChan)
+							}
+						}
+					} else {
+						time.Sleep(20 * time.Microsecond)
+					}
+					if time.Since(start) > 2*time.Minute {
+						rt.Fatalf("VF-INCONCLUSIVE a burst of %d applyConfig calls neither finished nor parked in a channel send within 2m", k)
+					}
+				}
 			}
 			if preload && step == 0 {
 				// the registry got its first snapshot before anybody watched (possible in MustNew too)
@@ -557,7 +669,7 @@ func TestVerifC20Supervisor(t *testing.T) {
 			updateDelivered := map[string]bool{}
 			// watcher events against the model diff
 			for _, vw := range watches {
-				evs := vfDrain(vw.w)
+				evs := append(queued[vw], vfDrain(vw.w)...)
 				// per-name op sequence over all events of this step
 				got := map[string][]string{}
 				for _, ev := range evs {
@@ -581,33 +693,35 @@ func TestVerifC20Supervisor(t *testing.T) {
 				}
 				for _, n := range vfNames {
 					var want []string
-					old := model[n]
-					nw, present := next[n]
 					// a watcher registered in this step sees the registry after the snapshot was applied
 					if vw.isNewThisStep {
-						if present && vw.filter(nw.Kind) {
+						if nw, present := next[n]; present && vw.filter(nw.Kind) {
 							want = append(want, "create:"+nw.Kind+":"+nw.Payload)
 						}
 					} else {
-						switch {
-						case old == nil && present:
-							if vw.filter(nw.Kind) {
-								want = append(want, "create:"+nw.Kind+":"+nw.Payload)
-							}
-						case old != nil && !present:
-							if vw.filter(old.obj.Kind) {
-								want = append(want, "delete:"+old.obj.Kind+":"+old.obj.Payload)
-							}
-						case old != nil && present && old.obj.Kind != nw.Kind:
-							if vw.filter(old.obj.Kind) {
-								want = append(want, "delete:"+old.obj.Kind+":"+old.obj.Payload)
-							}
-							if vw.filter(nw.Kind) {
-								want = append(want, "create:"+nw.Kind+":"+nw.Payload)
-							}
-						case old != nil && present && old.obj.Payload != nw.Payload:
-							if vw.filter(nw.Kind) {
-								want = append(want, "update:"+nw.Kind+":"+nw.Payload)
+						for _, sub := range subs {
+							old := sub.olds[n]
+							nw, present := sub.snap[n]
+							switch {
+							case old == nil && present:
+								if vw.filter(nw.Kind) {
+									want = append(want, "create:"+nw.Kind+":"+nw.Payload)
+								}
+							case old != nil && !present:
+								if vw.filter(old.Kind) {
+									want = append(want, "delete:"+old.Kind+":"+old.Payload)
+								}
+							case old != nil && present && old.Kind != nw.Kind:
+								if vw.filter(old.Kind) {
+									want = append(want, "delete:"+old.Kind+":"+old.Payload)
+								}
+								if vw.filter(nw.Kind) {
+									want = append(want, "create:"+nw.Kind+":"+nw.Payload)
+								}
+							case old != nil && present && old.Payload != nw.Payload:
+								if vw.filter(nw.Kind) {
+									want = append(want, "update:"+nw.Kind+":"+nw.Payload)
+								}
 							}
 						}
 					}
@@ -644,8 +758,12 @@ func TestVerifC20Supervisor(t *testing.T) {
 					vf.Class("panic-fired-in-" + c.Op)
 				}
 			}
+			knownName := map[string]bool{}
+			for _, n := range vfNames {
+				knownName[n] = true
+			}
 			for n := range byName {
-				if _, ok := expect[n]; !ok {
+				if !knownName[n] {
 					add(n, "bc-lifecycle-mismatch", "callbacks on an unknown name %q: %v", n, byName[n])
 				}
 			}
@@ -654,98 +772,126 @@ func TestVerifC20Supervisor(t *testing.T) {
 			// kind changes, no second Init, Inherit once per spec change); open are only: which of its
 			// generations (the last one that completed, or the one whose callback panicked) is the
 			// predecessor / gets closed / is reported live, and whether an unchanged snapshot re-inherits it.
-			newModel := map[string]*vfLive{}
+			// The callbacks of a name arrive in snapshot order, so each snapshot of a burst consumes its
+			// share of the name's callbacks.
+			newModel := model
 			broken := map[string]bool{}
-			for _, n := range vfNames {
-				old := model[n]
-				nw, present := next[n]
-				if present {
-					newModel[n] = &vfLive{obj: nw}
-				}
-				lv := newModel[n]
-				tainted := old != nil && old.tainted
-				sameObject := old != nil && present && old.obj.Kind == nw.Kind
-				if sameObject {
-					lv.core, lv.good, lv.tainted = old.core, old.good, old.tainted
-				}
-				if tainted {
-					vf.Class("tainted-name-step-judged-with-narrowed-oracle")
-					if !sameObject && vfKindCat[old.obj.Kind] == CategoryBusinessController {
-						vf.Class("tainted-object-disappears-or-changes-kind")
-					}
-				}
-				var got []string
-				for _, c := range byName[n] {
-					switch c.Op {
-					case "close":
-						got = append(got, "close:"+c.Kind)
-					default:
-						got = append(got, c.Op+":"+c.Kind+":"+c.Payload)
-					}
-				}
-				want := append([]string{}, expect[n].ops...)
-				gs, ws := append([]string{}, got...), append([]string{}, want...)
-				sort.Strings(gs)
-				sort.Strings(ws)
-				okOps := strings.Join(gs, ",") == strings.Join(ws, ",")
-				if !okOps && tainted && sameObject && old.obj.Payload == nw.Payload && vfKindCat[nw.Kind] == CategoryBusinessController &&
-					len(gs) == 1 && gs[0] == "inherit:"+nw.Kind+":"+nw.Payload {
-					// unspecified: a tainted object may be re-inherited by an unchanged snapshot
-					vf.Class("ambiguous-tainted-object-reinherited-on-unchanged-spec")
-					okOps = true
-				}
-				if !okOps {
-					add(n, "bc-lifecycle-mismatch", "name %s (tainted by an earlier own panic: %v): callbacks %v, model expects %v", n, tainted, byName[n], want)
-					broken[n] = true
+			cursor := map[string]int{}
+			for _, sub := range subs {
+				prevModel := newModel
+				newModel = map[string]*vfLive{}
+				for _, n := range vfNames {
+					old := prevModel[n]
+					nw, present := sub.snap[n]
 					if present {
-						lv.tainted = true
+						newModel[n] = &vfLive{obj: nw}
 					}
-					continue
-				}
-				// identities
-				allowed := func(c *vfCore) bool {
-					return old != nil && c != nil && (c == old.core || c == old.good)
-				}
-				oldDesc := "<none>"
-				if old != nil {
-					oldDesc = old.core.desc()
-					if old.good != old.core {
-						oldDesc += " or " + old.good.desc()
-					}
-				}
-				for _, c := range byName[n] {
-					switch c.Op {
-					case "init":
-						if c.Core.nInit != 1 || c.Core.nInh != 0 || c.Core.nClose != 0 {
-							add(n, "bc-lifecycle-mismatch", "name %s: Init on an instance that was used before: %s (init=%d inherit=%d close=%d)", n, c, c.Core.nInit, c.Core.nInh, c.Core.nClose)
-						}
-						lv.core = c.Core
-						if c.Panicked {
+					lv := newModel[n]
+					if broken[n] {
+						if present {
 							lv.tainted = true
-						} else {
-							lv.good = c.Core
 						}
-					case "inherit":
-						if c.Core.nInit != 0 || c.Core.nInh != 1 || c.Core.nClose != 0 {
-							add(n, "bc-lifecycle-mismatch", "name %s: Inherit on an instance that was used before: %s", n, c)
-						}
-						if !allowed(c.Prev) {
-							add(n, "bc-inherit-wrong-predecessor", "name %s: %s but the live generation was %s", n, c, oldDesc)
-						}
-						lv.core = c.Core
-						if c.Panicked {
-							lv.tainted = true
-						} else {
-							lv.good = c.Core
-						}
-					case "close":
-						if !allowed(c.Core) {
-							add(n, "bc-close-wrong-instance", "name %s: %s but the live instance was %s", n, c, oldDesc)
-						}
-						if c.Core.nClose != 1 {
-							add(n, "bc-lifecycle-mismatch", "name %s: instance closed %d times: %s", n, c.Core.nClose, c)
+						continue
+					}
+					tainted := old != nil && old.tainted
+					sameObject := old != nil && present && old.obj.Kind == nw.Kind
+					if sameObject {
+						lv.core, lv.good, lv.tainted = old.core, old.good, old.tainted
+					}
+					if tainted {
+						vf.Class("tainted-name-step-judged-with-narrowed-oracle")
+						if !sameObject && vfKindCat[old.obj.Kind] == CategoryBusinessController {
+							vf.Class("tainted-object-disappears-or-changes-kind")
 						}
 					}
+					want := sub.expect[n]
+					rest := byName[n][cursor[n]:]
+					take := len(want)
+					if take == 0 && tainted && sameObject && old.obj.Payload == nw.Payload && vfKindCat[nw.Kind] == CategoryBusinessController &&
+						len(rest) > 0 && rest[0].Op == "inherit" && rest[0].Kind == nw.Kind && rest[0].Payload == nw.Payload {
+						// unspecified: a tainted object may be re-inherited by an unchanged snapshot
+						vf.Class("ambiguous-tainted-object-reinherited-on-unchanged-spec")
+						take = 1
+						want = []string{"inherit:" + nw.Kind + ":" + nw.Payload}
+					}
+					okOps := len(rest) >= take
+					var mine []vfCall
+					if okOps {
+						mine = rest[:take]
+						var got []string
+						for _, c := range mine {
+							switch c.Op {
+							case "close":
+								got = append(got, "close:"+c.Kind)
+							default:
+								got = append(got, c.Op+":"+c.Kind+":"+c.Payload)
+							}
+						}
+						ws := append([]string{}, want...)
+						sort.Strings(got)
+						sort.Strings(ws)
+						okOps = strings.Join(got, ",") == strings.Join(ws, ",")
+					}
+					if !okOps {
+						add(n, "bc-lifecycle-mismatch", "name %s (tainted by an earlier own panic: %v): snapshot %s expects %v as the next callbacks; all callbacks of the name in this step: %v (the first %d were consumed by earlier snapshots of the burst)", n, tainted, sub.snap, want, byName[n], cursor[n])
+						broken[n] = true
+						if present {
+							lv.tainted = true
+						}
+						continue
+					}
+					cursor[n] += take
+					// identities
+					allowed := func(c *vfCore) bool {
+						return old != nil && c != nil && (c == old.core || c == old.good)
+					}
+					oldDesc := "<none>"
+					if old != nil {
+						oldDesc = old.core.desc()
+						if old.good != old.core {
+							oldDesc += " or " + old.good.desc()
+						}
+					}
+					for _, c := range mine {
+						switch c.Op {
+						case "init":
+							if c.NInit != 1 || c.NInh != 0 || c.NClose != 0 {
+								add(n, "bc-lifecycle-mismatch", "name %s: Init on an instance that was used before: %s (init=%d inherit=%d close=%d)", n, c, c.NInit, c.NInh, c.NClose)
+							}
+							lv.core = c.Core
+							if c.Panicked {
+								lv.tainted = true
+							} else {
+								lv.good = c.Core
+							}
+						case "inherit":
+							if c.NInit != 0 || c.NInh != 1 || c.NClose != 0 {
+								add(n, "bc-lifecycle-mismatch", "name %s: Inherit on an instance that was used before: %s", n, c)
+							}
+							if !allowed(c.Prev) {
+								add(n, "bc-inherit-wrong-predecessor", "name %s: %s but the live generation was %s", n, c, oldDesc)
+							}
+							lv.core = c.Core
+							if c.Panicked {
+								lv.tainted = true
+							} else {
+								lv.good = c.Core
+							}
+						case "close":
+							if !allowed(c.Core) {
+								add(n, "bc-close-wrong-instance", "name %s: %s but the live instance was %s", n, c, oldDesc)
+							}
+							if c.NClose != 1 {
+								add(n, "bc-lifecycle-mismatch", "name %s: instance closed %d times: %s", n, c.NClose, c)
+							}
+						}
+					}
+				}
+			}
+			for _, n := range vfNames {
+				if !broken[n] && cursor[n] < len(byName[n]) {
+					add(n, "bc-lifecycle-mismatch", "name %s: callbacks beyond what the snapshots of this step call for: %v (all: %v)", n, byName[n][cursor[n]:], byName[n])
+					broken[n] = true
 				}
 			}
 			// panic alongside another object changing in the same snapshot
@@ -828,9 +974,12 @@ func TestVerifC20Supervisor(t *testing.T) {
 					}
 					key = kindChange[first]
 					// the old finding's key only when the old finding's signature (an Inherit for the name) shows
-					asUpdate := updateDelivered[first]
-					for _, c := range byName[first] {
-						asUpdate = asUpdate || c.Op == "inherit"
+					asUpdate := false
+					if k == 1 {
+						asUpdate = updateDelivered[first]
+						for _, c := range byName[first] {
+							asUpdate = asUpdate || c.Op == "inherit"
+						}
 					}
 					if !asUpdate {
 						key = strings.Replace(key, "kind-change-delivered-as-update", "kind-change-not-close-plus-init", 1)
@@ -851,14 +1000,6 @@ func TestVerifC20Supervisor(t *testing.T) {
 				return
 			}
 
-			// bookkeeping for the next step
-			for _, n := range vfNames {
-				if _, present := next[n]; present {
-					everPresent[n] = true
-				} else if everPresent[n] {
-					everAbsentAfterPresent[n] = true
-				}
-			}
 			model = newModel
 			cur = next
 		}
